@@ -503,6 +503,59 @@ impl<'a> MachineAfterAluCalculations<'a> {
     }
 }
 
+/// Hooks for the external verification harness. Additive only; compiled in
+/// with the (non-default) cargo feature `verif-hooks`.
+#[cfg(feature = "verif-hooks")]
+impl RawMachine {
+    /// Force the sequencer into the given control state.
+    pub fn verif_force_control(
+        &mut self,
+        micro_addr: usize,
+        ir: u8,
+        alu_output: AluOutput,
+        last_bus_read: u8,
+        pending_edge_interrupt: bool,
+    ) {
+        self.microprogram_ram.set_address(micro_addr);
+        self.instruction_register.set_raw(ir);
+        self.alu_output = alu_output;
+        self.last_bus_read = last_bus_read;
+        self.pending_edge_interrupt = if pending_edge_interrupt {
+            Some(Interrupt)
+        } else {
+            None
+        };
+        self.pending_register_write = None;
+        self.pending_flag_write = None;
+        self.pending_wait_for_memory = None;
+    }
+    /// Current microprogram address.
+    pub fn verif_micro_addr(&self) -> usize {
+        self.microprogram_ram.get_address()
+    }
+    /// Raw content of the instruction register.
+    pub fn verif_ir(&self) -> u8 {
+        self.instruction_register.get_raw()
+    }
+    /// Pending latches: (register write, flag write, edge interrupt, memory wait).
+    pub fn verif_pending(&self) -> (Option<RegisterNumber>, bool, bool, bool) {
+        (
+            self.pending_register_write,
+            self.pending_flag_write.is_some(),
+            self.pending_edge_interrupt.is_some(),
+            self.pending_wait_for_memory.is_some(),
+        )
+    }
+    /// Byte latched from the bus during the last cycle.
+    pub fn verif_last_bus_read(&self) -> u8 {
+        self.last_bus_read
+    }
+    /// Latest ALU output latch.
+    pub fn verif_alu_output(&self) -> &AluOutput {
+        &self.alu_output
+    }
+}
+
 #[cfg(test)]
 mod tests {
     use super::*;
